@@ -115,7 +115,10 @@ func (e histEngine) Budget(tier string) (int, time.Duration) {
 	if tier == "thorough" {
 		return 1_500_000, 12 * time.Minute
 	}
-	return 40_000, 45 * time.Second
+	if e.id == "C06" {
+		return 20_000, 45 * time.Second
+	}
+	return 30_000, 45 * time.Second
 }
 func (e histEngine) Assumptions() []string {
 	a := []string{
